@@ -585,15 +585,75 @@ def run(tier="quick", seed=0, repo="/repo"):
             case = random_case(rng, n)
             nt, summ = check_case(rec, case)
             rec.case(fingerprint(case), nt, summ if nt and rec.evaluations % 499 == 0 else None)
-    return rec.result(RULE, "part A exhaustive: L2, n<=%d (p=1, X in {0,1,3}^n) / n<=3 (p=2, X in {0,2}), 2<=m<=n, m<=M<=n+1, "
+    inp_long = {"n": 2000, "m": 2, "M": 60, "seed": seed}
+    rec.case(("long", 2000, 2, 60), check_long(rec, inp_long), None)
+    return rec.result(RULE, "one univariate series of 2000 rows (CAPA class, L2 saving) against the recursion; part A exhaustive: L2, n<=%d (p=1, X in {0,1,3}^n) / n<=3 (p=2, X in {0,2}), 2<=m<=n, m<=M<=n+1, "
                       "alphas in {0,1,4}; part B random (%d cases per n): n<=9, p<=2, 2<=m<=M<=8, sub-additive non-negative "
                       "tables / L2 / Saving(L2Cost), penalty grid {0,.5,2,6} resp. scales {0,.1,.3,1,2}, all penalty shapes, "
                       "5 entry points" % (4 if tier == "quick" else 5, per_n), exhaustive=False)
 
 
+def check_long(rec, inp):
+    """One LONG univariate series through the CAPA class (L2 saving): every cumulative score against the recursion of the statement evaluated
+    with NumPy, and the reported anomalies re-evaluated (admissible lengths, disjoint, total == final score).  inp: {"n", "m", "M", "seed"}."""
+    import pandas as pd
+    from skchange.anomaly_detectors import CAPA
+    n, m, M = int(inp["n"]), int(inp["m"]), int(inp["M"])
+    rng = np.random.default_rng(int(inp["seed"]))
+    x = rng.normal(size=n)
+    for a in rng.choice(np.arange(20, n - 80), size=10, replace=False):
+        L = int(rng.integers(m, 40))
+        x[a:a + L] += rng.choice([-3.0, 2.5, 4.0])
+    x[rng.choice(n, size=8, replace=False)] += 9.0
+    x[n - 12:n - 2] += 3.5                                  # an anomaly close to the end
+    X = pd.DataFrame(x.reshape(-1, 1))
+    tgt = "skchange/anomaly_detectors/capa.py::CAPA"
+    try:
+        det = CAPA(min_segment_length=m, max_segment_length=M).fit(X)
+        scores = np.asarray(det.transform_scores(X), dtype=float).reshape(-1)
+        y = det.predict(X)
+        ivs = [(int(iv.left), int(iv.right)) for iv in y["ilocs"]]
+        pc, pp = float(det.collective_penalty_), float(det.point_penalty_)
+    except Exception as e:      # noqa: BLE001
+        rec.violation("CAPA:long-series:raises", f"CAPA(m={m}, M={M}) on n={n} raised {type(e).__name__}: {str(e)[:120]}", "C03.optimum", {"long": inp}, target=tgt)
+        return True
+    S = np.concatenate(([0.0], np.cumsum(x)))
+    sav = lambda a, e: (S[e] - S[a]) ** 2 / (e - a)           # noqa: E731  (L2 saving of [a, e) against baseline mean 0)
+    F = np.zeros(n + 1)
+    for t in range(1, n + 1):
+        best = max(F[t - 1], F[t - 1] + x[t - 1] ** 2 - pp)
+        lo = max(0, t - M)
+        if t - m >= lo:
+            a = np.arange(lo, t - m + 1)
+            best = max(best, float(np.max(F[a] + sav(a, t) - pc)))
+        F[t] = best
+    bad = np.flatnonzero(np.abs(scores - F[1:]) > 1e-7 * (1.0 + np.abs(F[1:])))
+    if len(scores) != n or len(bad):
+        k = int(bad[0]) if len(bad) else -1
+        rec.violation("run_capa:optimum:long-series", f"CAPA(m={m}, M={M}) on n={n}: {len(bad)} cumulative scores differ from the optimal total penalised saving of the "
+                      f"prefix, first at prefix length {k + 1}: {scores[k] if k >= 0 else None!r} vs {F[k + 1] if k >= 0 else None!r}", "C03.optimum", {"long": inp}, target=tgt)
+        return True
+    tot, last = 0.0, 0
+    for a, e in sorted(ivs):
+        L = e - a
+        if a < last or not (L == 1 or m <= L <= M):
+            rec.violation("run_capa:anomalies:long-series", f"CAPA(m={m}, M={M}) on n={n}: reported anomalies {sorted(ivs)[:6]}... overlap or have an inadmissible length "
+                          f"at [{a},{e})", "C03.anomalies", {"long": inp}, target=tgt)
+            return True
+        tot += (x[a] ** 2 - pp) if L == 1 else (sav(a, e) - pc)
+        last = e
+    if abs(tot - F[n]) > 1e-7 * (1.0 + abs(F[n])):
+        rec.violation("run_capa:reevaluation:long-series", f"CAPA(m={m}, M={M}) on n={n}: the {len(ivs)} reported anomalies re-evaluate to {tot!r}, the final score is {F[n]!r}",
+                      "C03.reevaluation", {"long": inp}, target=tgt)
+    return True
+
+
 def replay(inp, repo="/repo"):
     use_repo(repo)
     rec = Recorder(max_per_key=5)
+    if "long" in inp:
+        check_long(rec, inp["long"])
+        return {"violated": bool(rec.violations), "detail": rec.violations[0]["what"] if rec.violations else "holds"}
     check_case(rec, inp["case"])
     keys = [v["key"] for v in rec.violations]
     want = inp.get("key")
